@@ -268,6 +268,82 @@ def run(ctx):
         if dist['ops'].get(need, 0) == 0:
             ctx.broken.append(dict(kind='generator', name='distribution', detail='no op %s generated' % need))
     others(ctx)
+    itv_model(ctx, drv)
+
+
+def gen_itv_case(rng):
+    """intervals aimed at the case split of C15/ITVProofs (branch bounds must CONTAIN both children, whatever the sort order pairs):
+    nested and partially nested intervals of different length, long intervals next to short ones with a larger midpoint, point
+    intervals, duplicates, equal midpoints; queries that touch only the protruding part of a long interval, the exact ends, gaps"""
+    fam = rng.choice(['nested', 'chain', 'mixed', 'points', 'equal_len', 'dups', 'single'])
+    n = 1 if fam == 'single' else rng.choice([2, 2, 3, 4, 5, 7, 8, 9, 16, 17, 33, 64])
+    R = rng.choice([10, 40, 1000])
+    items = []
+    for i in range(n):
+        if fam == 'nested':
+            c = rng.randint(-R, R); h = rng.choice([0, 1, 2, R // 2, R, 3 * R]); lo, hi = c - h, c + h + rng.randint(0, 1)
+        elif fam == 'chain':
+            lo = -i * rng.randint(0, 3); hi = i * rng.randint(0, 3) + rng.randint(0, 2)
+        elif fam == 'points':
+            lo = hi = rng.randint(-R, R)
+        elif fam == 'equal_len':
+            lo = rng.randint(-R, R); hi = lo + 5
+        elif fam == 'dups' and items and rng.random() < 0.5:
+            lo, hi, _ = rng.choice(items)
+        else:
+            lo = rng.randint(-R, R); hi = lo + rng.choice([0, 1, 3, R, 4 * R])
+        items.append((lo, hi, i))
+    qs = []
+    for _ in range(rng.randint(3, 8)):
+        k = rng.random()
+        lo, hi, _ = rng.choice(items)
+        if k < 0.3:
+            a = rng.choice([lo, hi]); qs.append((a, a))                        # exactly an end point
+        elif k < 0.5:
+            a = rng.choice([lo - 1, hi + 1]); qs.append((a, a))                # just outside
+        elif k < 0.7:
+            a = rng.randint(lo, hi); qs.append((a, min(hi, a + rng.randint(0, 2))))   # inside (protruding part of a long one)
+        else:
+            a = rng.randint(-2 * R, 2 * R); qs.append((a, a + rng.choice([0, 1, R])))
+    return fam, items, qs
+
+
+def itv_model(ctx, drv):
+    """SortedPackedIntervalRTree: the real class beside the extracted model ITVDefs.itv_run (generated pruning test / branch bounds /
+    comparator + hand-written build and recursion) and the list filter; a miss or an extra item is a violation of the property"""
+    exe = os.path.join(BUILD, 'bin', 'c15_itv')
+    if not ctx.cxx(os.path.join(ROOT, 'harness/c15_itv.cpp'), exe, 'rel'):
+        return
+    import random
+    rng = random.Random(ctx.seed + 77)
+    n = 300 if ctx.quick else 6000
+    cases = [('corpus', [(0, 10, 0), (6, 7, 1)], [(8, 9), (10, 10), (0, 0)]), ('corpus', [(0, 10, 0), (2, 3, 1)], [(0, 1), (5, 9)])]
+    cases += [gen_itv_case(rng) for _ in range(n)]
+    lines = ['V ' + ' ; '.join('%d %d %d' % it for it in items) + ' | ' + ' | '.join('%d %d' % q for q in qs) for _, items, qs in cases]
+    impl = ctx.run_lines([exe], lines, timeout=600, line_timeout=30)
+    model = ctx.run_lines([drv], lines, timeout=600) if drv else None
+    fams, nontriv = {}, 0
+    for i, (fam, items, qs) in enumerate(cases):
+        fams[fam] = fams.get(fam, 0) + 1
+        exp = ' '.join('[' + ','.join(str(k) for k in sorted(k for lo, hi, k in items if lo <= qh and ql <= hi)) + ']' for ql, qh in qs)
+        hits = [sum(1 for lo, hi, k in items if lo <= qh and ql <= hi) for ql, qh in qs]
+        nt = any(0 < h < len(items) for h in hits)
+        nontriv += nt
+        ctx.count(('itv', lines[i]), nt)
+        got = impl[i].strip() if i < len(impl) else 'MISSING'
+        if got != exp:
+            ctx.violation('itv_%d' % i, dict(case=lines[i], family=fam, implementation=got, expected=exp, replay='echo "%s" | %s' % (lines[i], exe)),
+                          msg='SortedPackedIntervalRTree query differs from the linear scan: got %s expected %s' % (got[:200], exp[:200]))
+            if len(ctx.violations) > 5:
+                break
+        if model is not None and i < len(model) and model[i].strip() != exp:
+            ctx.broken.append(dict(kind='correspondence', name='itv_model', detail='model %s spec %s on %s' % (model[i][:200], exp[:200], lines[i][:300])))
+            break
+    ctx.notes['itv_families'] = fams
+    ctx.notes['itv_nontrivial'] = nontriv
+    for need in ['nested', 'chain', 'mixed', 'points', 'equal_len', 'dups', 'single']:
+        if fams.get(need, 0) == 0:
+            ctx.broken.append(dict(kind='generator', name='itv_distribution', detail='family %s not generated' % need))
 
 
 def parse_line(line):
